@@ -388,17 +388,25 @@ func InstallFSStubs(e *Engine, srcRoot string) {
 			}
 			return tuple{joinPath([]value{m.Cwd, s}), iface{}}
 		}
-		// symbolic custom path: Abs yields an arbitrary clean absolute path
-		// determined by its argument (one symbol per distinct argument)
-		k := pathKey(args[0])
-		if v, ok := m.AbsOf[k]; ok {
-			return tuple{v, iface{}}
+		// symbolic (clean) path: absolute paths are returned as they are,
+		// relative ones are joined to the working directory
+		sy := args[0].(Sym)
+		if ps.Branch(Sym{S: SBool, T: `(str.prefixof "/" ` + sy.T + `)`}) {
+			return tuple{sy, iface{}}
 		}
-		a := ps.Fresh(SString, "abs("+k+")")
-		ps.Assume(`(str.prefixof "/" ` + a.T + `)`)
-		ps.Assume(`(not (str.suffixof "/" ` + a.T + `))`)
-		m.AbsOf[k] = a
-		return tuple{a, iface{}}
+		return tuple{joinPath([]value{m.Cwd, sy}), iface{}}
+	}
+	ic["path/filepath.IsAbs"] = func(ps *PathState, fr *frame, fn *ssa.Function, args []value) value {
+		if s, ok := args[0].(string); ok {
+			return filepath.IsAbs(s)
+		}
+		return Sym{S: SBool, T: `(str.prefixof "/" ` + args[0].(Sym).T + `)`}
+	}
+	ic["path/filepath.Clean"] = func(ps *PathState, fr *frame, fn *ssa.Function, args []value) value {
+		if s, ok := args[0].(string); ok {
+			return filepath.Clean(s)
+		}
+		return args[0] // symbolic paths are assumed clean
 	}
 	for _, n := range []string{"Dir", "Base"} {
 		n := n
